@@ -178,3 +178,27 @@ pub fn tokens(j: &J, sort_keys: bool, out: &mut Vec<String>) {
         }
     }
 }
+
+/// sort object keys recursively (nested object key order comes out of a hash map in the
+/// implementation; that is C13/C18's business, not the caller's)
+pub fn normalize(j: &J) -> J {
+    match j {
+        J::Arr(v) => J::Arr(v.iter().map(normalize).collect()),
+        J::Obj(kvs) => {
+            let mut kvs: Vec<(String, J)> = kvs.iter().map(|(k, v)| (k.clone(), normalize(v))).collect();
+            kvs.sort_by(|a, b| a.0.cmp(&b.0));
+            J::Obj(kvs)
+        }
+        other => other.clone(),
+    }
+}
+
+/// canonical text of a whole record-mode stdout: one normalised value per line
+pub fn normalized_lines(stdout: &[u8]) -> Option<Vec<J>> {
+    let text = String::from_utf8_lossy(stdout);
+    let mut v = vec![];
+    for l in text.lines().filter(|l| !l.is_empty()) {
+        v.push(normalize(&parse(l).ok()?));
+    }
+    Some(v)
+}
